@@ -8,7 +8,7 @@
    the file layer preserves and what it does not (gbk, a table, stays an oracle).
    [in_order] (Spec/C20.v) is "each middleware applied to the result of the one before, left to right". *)
 From Coq Require Import String List NArith ZArith Bool.
-From BP Require Import Base.Chars Model.Blocks Model.Writer Model.Stack Spec.C20 Proofs.StackProofs Model.TextIO Proofs.TextIOProofs Proofs.TextIOChunks.
+From BP Require Import Base.Chars Model.Blocks Model.Writer Model.Stack Spec.C20 Proofs.StackProofs Model.TextIO Proofs.TextIOProofs Proofs.TextIOChunks Proofs.TextIOBytes.
 Import ListNotations.
 
 (* parse_string = splitting, then exactly the given parse_stack in the given order, or the default stack followed by
@@ -187,6 +187,21 @@ Theorem C20_text_write_pieces_utf16 : forall s t a b, units_encode s = Some a ->
   utf16_encode (s ++ t) = Some (255 :: 254 :: bytes_le a ++ bytes_le b).
 Proof. exact utf16_encode_pieces. Qed.
 Print Assumptions C20_text_write_pieces_utf16.
+
+(* the other direction, at the level of bytes: a utf-8 file without a carriage-return byte that parse_file accepts is reproduced
+   byte for byte when the text that was read is written again; reading is injective on such files - and not on files with
+   carriage returns (CR LF, CR and LF files read as the same text) *)
+Theorem C20_text_utf8_file_fixpoint : forall bs s, no_cr_byte bs = true -> read_text Utf8 bs = Some s -> write_text Utf8 s = Some bs.
+Proof. exact utf8_file_fixpoint. Qed.
+Print Assumptions C20_text_utf8_file_fixpoint.
+Theorem C20_text_utf8_read_injective : forall b1 b2 s, no_cr_byte b1 = true -> no_cr_byte b2 = true ->
+  read_text Utf8 b1 = Some s -> read_text Utf8 b2 = Some s -> b1 = b2.
+Proof. exact utf8_read_injective. Qed.
+Print Assumptions C20_text_utf8_read_injective.
+Theorem C20_text_utf8_read_not_injective_with_cr :
+  read_text Utf8 [97; 13; 10] = read_text Utf8 [97; 10] /\ read_text Utf8 [97; 13] = read_text Utf8 [97; 10].
+Proof. exact utf8_read_not_injective_with_cr. Qed.
+Print Assumptions C20_text_utf8_read_not_injective_with_cr.
 
 (* non-vacuity: a document with a non-ASCII letter, an astral character and a CRLF line end, through each codec *)
 Example C20_text_example :
